@@ -239,4 +239,16 @@ def neverI (c : Cfg) (P : St → Item → Bool) (k : Kind) (b : Beh) (items : Li
   let (s, r) := init c k b
   if r.halts then true else neverFromI c P s items
 
+/-- The states in which one PART of the handling of a request gets the executor stuck: the request served in one
+    piece, exactly where `step` gets stuck once the look-up has succeeded (`unsafeReq`); the two parts of
+    startBasicTask that dereference t.taskCmd, exactly when a KILL has cleared it in between. -/
+def unsafePart (c : Cfg) (s : St) : Part → Bool
+  | .whole op => unsafeReq c { s with active := true } op
+  | .exec _ | .reap _ => !s.cmd
+  | _ => false
+
+def PStep.halts : PStep → Bool
+  | .halt _ => true
+  | .next _ _ _ => false
+
 end ExecTask
